@@ -1,6 +1,7 @@
 package main
 
 import (
+	"context"
 	"fmt"
 	"math/rand"
 	"sync"
@@ -188,6 +189,84 @@ func c04lent(c *wk.Ctx, i int, rng *rand.Rand) {
 			}
 		}
 		ok++
+	}
+	// cancelled calls to the client-hosted objects themselves: a third party gets the references from the
+	// desks (give()), calls poke() - no parameter - through a context and cancels while the body is
+	// parked; a cancel must never run the method (again): executions <= calls issued
+	issued := make([]int, nDesk)
+	{
+		hs := make([]probe.HelperProxy, nDesk)
+		for k := 0; k < nDesk; k++ {
+			h, err := callers[0][k].Give()
+			if err != nil {
+				c.Viol("lent", i, "give=error", fmt.Sprintf("desk %d cannot hand out the object it was lent: %v", k, err), detail)
+				return
+			}
+			hs[k] = h
+		}
+		var pwg sync.WaitGroup
+		for r := 0; r < 6+rng.Intn(10); r++ {
+			for k := 0; k < nDesk; k++ {
+				ctx, cancel := context.WithCancel(context.Background())
+				issued[k]++
+				pwg.Add(1)
+				d := time.Duration(50+rng.Intn(400)) * time.Microsecond
+				doCancel := rng.Intn(4) != 0
+				go func(k int) {
+					defer pwg.Done()
+					hs[k].WithContext(ctx).Poke()
+					atomic.AddInt64(&progress, 1)
+					cancel()
+				}(k)
+				if doCancel {
+					time.Sleep(d)
+					cancel()
+				}
+			}
+		}
+		pdone := make(chan struct{})
+		go func() { pwg.Wait(); close(pdone) }()
+		if v, dump := stuck.Wait(pdone, &progress, 3*time.Minute); v != stuck.Returned {
+			if v == stuck.Stuck {
+				c.Viol("lent", i, "call=never-returned/lent-cancel/"+wk.PanicSite(dump), "a cancelled call to a client-hosted object never returned", map[string]interface{}{"dump": clipDump(dump)})
+				c.Abandon("calls blocked")
+			} else {
+				c.Inconclusive("lent", i, "watchdog")
+			}
+			return
+		}
+		pk.close2() // release whatever is still parked, park nothing from here on
+		bdone := make(chan struct{})
+		var berr error
+		go func() {
+			defer close(bdone)
+			for k := 0; k < nDesk; k++ { // barrier: whatever was sent before has been handled when this returns
+				if _, err := hs[k].Poke(); err != nil {
+					berr = fmt.Errorf("helper %d: %v", k, err)
+					return
+				}
+			}
+		}()
+		if v, dump := stuck.Wait(bdone, &progress, 3*time.Minute); v == stuck.Stuck {
+			c.Viol("lent", i, "call=never-returned/lent-barrier/"+wk.PanicSite(dump), "a call to a client-hosted object never returned after cancelled ones", map[string]interface{}{"dump": clipDump(dump)})
+			c.Abandon("calls blocked")
+			return
+		} else if v == stuck.Watchdog {
+			c.Inconclusive("lent", i, "watchdog")
+			return
+		}
+		if berr != nil {
+			c.Count("lent_barrier_errors", 1)
+		} else {
+			for k, h := range helpers {
+				if n := h.PokeCount(); n > issued[k]+1 {
+					detail["calls_issued"], detail["executions"] = issued[k]+1, n
+					c.Viol("lent", i, "cancel=executed/lent", fmt.Sprintf("poke() of the object lent to desk %d ran %d times for %d calls (some of them cancelled in flight)", k, n, issued[k]+1), detail)
+					return
+				}
+				c.Count("cancelled_calls_to_client_hosted_objects", int64(issued[k]))
+			}
+		}
 	}
 	c.Count("calls_relayed_to_client_hosted_objects", int64(ok))
 	c.Count("relayed_calls_answered_with_an_error", int64(errs))
